@@ -8,7 +8,7 @@
     goroutine (a scratch buffer, a cache); the functional model of the operations has no place
     for it, so a new one must be reviewed (Model/Globals.v [reviewed_globals]) or the model extended. *)
 From Coq Require Import String List Arith.
-From GT Require Import Model.Globals Gen.Globals Proofs.Independence Model.Narrow Gen.Narrow Proofs.Narrow.
+From GT Require Import Model.Globals Gen.Globals Proofs.Independence Model.Narrow Gen.Narrow Proofs.Narrow Model.Structs Gen.Structs.
 Import ListNotations.
 Local Open Scope string_scope.
 
@@ -26,6 +26,14 @@ Print Assumptions C06_no_shared_state.
 Theorem C06_no_narrow_counters : unreviewed_narrow C06_packages narrow_sites = [].
 Proof. vm_compute. reflexivity. Qed.
 Print Assumptions C06_no_narrow_counters.
+
+(** [structs] (Gen/Structs.v, regenerated on every run): the fields of every named struct type of
+    the library packages.  Every field of the types in this property's packages is in the reviewed
+    table (Model/Structs.v): the objects hold exactly the state the models give them, no cache,
+    scratch buffer or flag has been added to a tree, node, branch, index, scanner, rearranger ... *)
+Theorem C06_no_new_fields : unreviewed_fields C06_packages structs = [].
+Proof. vm_compute. reflexivity. Qed.
+Print Assumptions C06_no_new_fields.
 
 (** what it buys: when no step reads or writes the shared store, every interleaving of calls made by
     different threads on their own data leaves the store alone and gives each thread the result of
